@@ -422,6 +422,9 @@ func (w *World) Exec(a Act) Outcome {
 		return w.Stake(a.S("val"), a.I("p"))
 	case "Gov":
 		return w.Gov(a)
+	case "ExtDeposit", "ExtExec", "ExtMine", "ExtSSExec", "Note":
+		// actions of the modelled external world: nothing happens on the hub
+		return Outcome{Out: "ok"}
 	}
 	signer, msgs, err := w.BuildMsgs(a)
 	if err != nil {
@@ -433,14 +436,6 @@ func (w *World) Exec(a Act) Outcome {
 		return Outcome{Out: "err", Log: "sign: " + err.Error()}
 	}
 	o, r := w.DeliverBytes(bz)
-	if o.Hash != "" {
-		name := sprintf("h%d", w.stepNo)
-		if a.Has("i") {
-			name = "h" + a.S("i")
-		}
-		w.N.RegisterTxHash(o.Hash, name)
-		o.Hash = name
-	}
 	if o.Out == "ok" && a.S("k") == "Send" {
 		var txMsgData sdk.TxMsgData
 		if err := proto.Unmarshal(r.Data, &txMsgData); err == nil && len(txMsgData.Data) > 0 {
@@ -449,6 +444,26 @@ func (w *World) Exec(a Act) Outcome {
 				o.Id = resp.Id
 			}
 		}
+	}
+	if o.Hash != "" {
+		name := sprintf("h%d", w.stepNo)
+		if a.Has("i") {
+			name = "h" + a.S("i")
+		}
+		if o.Id != 0 { // accepted send: named after the chain and the transfer id it created
+			ini := "x"
+			switch a.S("chain") {
+			case "ethereum":
+				ini = "e"
+			case "minter":
+				ini = "m"
+			case "bsc":
+				ini = "b"
+			}
+			name = sprintf("s%s%d", ini, o.Id)
+		}
+		w.N.RegisterTxHash(o.Hash, name)
+		o.Hash = name
 	}
 	if o.Out == "err" {
 		o.Log = shortLog(o.Log)
